@@ -18,7 +18,7 @@ RULE = (
     "DPAPINGBlob.unpack(blob).pack(blob_in_envelope=False) fed back to unprotect. Oracle: unprotect(protect(x)) == x and the independent reference decryptor opens the same blob from the root key alone and the blob names the interval of the virtual clock. "
     "Nonce-mode cells are additionally run twice in a row on one KeyCache shared along the whole shard (cache history x clock x SID). DC-seeded modes additionally run every ordered pair of 12 clock positions on a fresh cache that only holds what the DC returned. Every cell is distinct by construction; non-trivial = all (each runs protect, two unprotects and the reference decryptor)."
     ' Also two async UNPROTECTS of blobs at 7 position pairs in flight at once on one empty shared cache (both need the DC), every interleaving of the two conversations within the deviation bound.'
-    " For the non-SHA512 nonce configurations every other cell uses a cache into which the root key id was loaded twice before use (load_key's defaults, then the real attributes)."
+    " For the non-SHA512 nonce configurations every other cell uses a cache into which the root key id was loaded twice before use (load_key's defaults, then the real attributes). Nonce shards end with one cache holding three root keys (two of one hash, one of another): the same SID and clock protected under each alternately, 6 clocks x 3 SIDs x sync/async x 5 calls."
 )
 ASSUME = ["ref/cms.py + ref/gkdi.py calibrated on the 16 Windows vectors", "clock seam time.time_ns; DC with scripted security context for the public-key configurations"]
 BOUND = {"quick": "8 lengths x 4 SID shapes x 24 configs x 4 clocks x 2 layouts x 2 APIs", "thorough": "21 lengths x 45 SID shapes x 24 configs x 7 clocks x 2 x 2 (SID shapes cycled over the other dimensions for DH)"}
@@ -188,6 +188,26 @@ def run_shard(shard, tier, seed, acc) -> None:
                 else:
                     acc.outcome("roundtrip-ok-shared-cache")
             hist.append([ln, sid, ft, api])
+    if m == "nonce" and part == 0:
+        # ONE cache that holds TWO root keys (key roll-over: the old and the new root key of the same group), the same SID and clock protected
+        # under each of them alternately: what the cache learnt for one root key must not serve the other (the reference decryptor judges)
+        rk_b = seams.make_root(seams.Drbg(("C01-second-root", seed, h)), h, "DH")
+        rk_c = seams.make_root(seams.Drbg(("C01-third-root", seed, h)), HASHES[(HASHES.index(h) + 1) % len(HASHES)], "DH")
+        two = seams.make_cache(rk)
+        seams.load_root(two, rk_b)
+        seams.load_root(two, rk_c)
+        sids2 = sid_shapes("quick")[:3]
+        for ft2 in (CLOCKS_Q if tier == "quick" else CLOCKS_T)[:6]:
+            for sid2 in sids2:
+                for api2 in ("sync", "async"):
+                    for which, rkx in (("first", rk), ("second", rk_b), ("third", rk_c), ("first", rk), ("second", rk_b)):
+                        v3, _ = roundtrip(rkx, m, sid2, plaintext(seed, 23), ft2, api2, cache=two)
+                        n += 1
+                        if v3:
+                            acc.violate("two-roots." + v3[0], ["shard", shard, tier], {**v3[1], "root": which, "cell": [sid2, ft2, api2]}, size=10**5)
+                            acc.outcome("violation")
+                        else:
+                            acc.outcome("roundtrip-ok-two-roots")
     if m in ("ECDH_P256", "nonce-dc") and part == 0:
         # two async round trips in flight at once (their DC conversations interleaved by the explorer), and the whole thing again on a
         # NEW event loop of the same process: every call returns its own plaintext
